@@ -820,7 +820,7 @@ class JobMove(FSContract):
 
 class ProjectClone(FSContract):
     target = f"{PRJ}.Project.clone"
-    properties = ("C03", "C04", "C11", "C13")
+    properties = ("C03", "C04", "C11", "C13", "C16")
     shard_bits = 2
     inline = GETTERS + (f"{JOB}.Job.statepoint", f"{JOB}._StatePointDict.__init__", f"{PRJ}.Project._register")
     callees = {f"{PRJ}.Project.open_job": stub_open_job_by_sp, f"{JOB}._StatePointDict.load": stub_sp_load}
